@@ -372,9 +372,14 @@ func genTarget(r *coqfmt.Rand, id int) Case {
 	n := 147 + r.Intn(60)
 	c := Case{ID: id, Kind: "target"}
 	t := uint32(1500000000)
-	style := r.Intn(6)
+	style := r.Intn(7)
 	pool := []uint32{0x1c0fffff, 0x1c0ffffe, 0x1b7fffff, 0x1d00ffff, 0x1c7fffff, 0x18021fdb}
 	same := pool[r.Intn(len(pool))]
+	// style 6: a window at (or within a factor of two of) the proof-of-work limit with blocks a
+	// little faster or slower than the schedule, so that the new target lands just below, at or
+	// just above the limit (the cap must apply exactly from the limit on)
+	nearStep := uint32(250 + r.Intn(500))
+	nearLow := r.Chance(1, 4)
 	for i := 0; i < n; i++ {
 		switch style {
 		case 0: // perfectly regular
@@ -387,14 +392,16 @@ func genTarget(r *coqfmt.Rand, id int) Case {
 			t += 1500 + uint32(r.Intn(2000))
 		case 4: // decreasing
 			t -= uint32(r.Intn(300))
-		default: // plateaus: ties among neighbours
+		case 5: // plateaus: ties among neighbours
 			if r.Chance(1, 3) {
 				t += 1800
 			}
+		default: // near the proof-of-work limit
+			t += nearStep
 		}
 		tt := t
 		// perturb the six sampled positions: ties, inversions, far future
-		if i >= n-3 || (i >= n-147 && i <= n-145) {
+		if (i >= n-3 || (i >= n-147 && i <= n-145)) && (style != 6 || r.Chance(1, 4)) {
 			switch r.Intn(10) {
 			case 0:
 				tt = t + 7200
@@ -413,7 +420,13 @@ func genTarget(r *coqfmt.Rand, id int) Case {
 			}
 		}
 		c.Times = append(c.Times, tt)
-		if r.Chance(1, 2) {
+		if style == 6 {
+			if nearLow && r.Chance(1, 2) {
+				c.BitsList = append(c.BitsList, 0x1c7fffff)
+			} else {
+				c.BitsList = append(c.BitsList, 0x1d00ffff)
+			}
+		} else if r.Chance(1, 2) {
 			c.BitsList = append(c.BitsList, same)
 		} else {
 			c.BitsList = append(c.BitsList, pool[r.Intn(len(pool))])
